@@ -18,7 +18,7 @@
        tree by [tstep]) is what the image-aware TraceKernel of the harness implements on the real positions; the call sequence
        itself is compared with the C++ on every run. *)
 From Tbfmm Require Import Base.Prelude Index.MortonDefs Index.ListsDefs Tree.GroupDefs Tree.BuildDefs Exec.ExecDefs Exec.ExecPeriodicDefs
-  Index.ListsSpec Tree.Invariant Spec.TopTree Spec.GeometryPer Spec.ExactlyOncePer Exec.ImageDefs.
+  Index.ListsSpec Tree.Invariant Spec.TopTree Spec.GeometryPer Spec.ExactlyOncePer Spec.ExactlyOncePerTsm Exec.ImageDefs.
 From Coq Require Import Permutation.
 Local Open Scope Z_scope.
 
@@ -151,3 +151,15 @@ Proof. vm_compute. reflexivity. Qed.
 Theorem C10_image_shift_is_img_shift : forall d l t o, image_shift d l t o = img_shift d l t o.
 Proof. reflexivity. Qed.
 Print Assumptions C10_image_shift_is_img_shift.
+
+(* ---- the target/source periodic sequence (TbfAlgorithmTsm + TbfAlgorithmPeriodicTopTreeTsm) ---- *)
+Theorem C10_periodic_tsm_exactly_once : forall d H B mode k src tgt idxs idxt, (0 < d)%nat -> 2 <= H -> -1 <= k ->
+  tree_ok (parent d) H B mode src -> tree_ok (parent d) H B mode tgt -> particles_ok idxs src -> particles_ok idxt tgt ->
+  Forall (fun i => 0 <= i < 2 ^ ((H - 1) * dz d)) idxs -> Forall (fun i => 0 <= i < 2 ^ ((H - 1) * dz d)) idxt -> idxs <> [] -> idxt <> [] ->
+  let st := prun_tsm d k (H - 1) (periodic_run_tsm d k 1 src tgt) pst0 in
+  let (lo, hi) := repetition_interval k in
+  forall p q sigma, 0 <= p < zlen idxt ->
+    count_occ ival_eq_dec (p_rhs st p) (q, sigma)
+    = if (0 <=? q) && (q <? zlen idxs) && (Nat.eqb (length sigma) d) && forallb (fun x => (lo <=? x) && (x <=? hi)) sigma then 1%nat else 0%nat.
+Proof. exact periodic_tsm_exactly_once. Qed.
+Print Assumptions C10_periodic_tsm_exactly_once.
